@@ -383,3 +383,221 @@ Proof.
   { induction l as [|x l IH]; cbn; [reflexivity|]. unfold pair_eqb at 1. rewrite !N.eqb_refl. exact IH. }
   rewrite !HN, HP, N.eqb_refl, !Z.eqb_refl. reflexivity.
 Qed.
+
+(* ---------- the operations do not depend on the fuel beyond the height, nor on the buffer fields ---------- *)
+Definition aeq (a1 a2 : alloc) : Prop :=
+  nextPage a1 = nextPage a2 /\ freeList a1 = freeList a2 /\ leafKeys a1 = leafKeys a2 /\ pagesFree a1 = pagesFree a2.
+Definition sim (x y : tstate) : Prop := root x = root y /\ aeq (al x) (al y).
+
+Lemma aeq_refl a : aeq a a.
+Proof. repeat split. Qed.
+
+Lemma new_node_aeq ps a1 a2 : aeq a1 a2 ->
+  snd (new_node ps a1) = snd (new_node ps a2) /\ aeq (fst (new_node ps a1)) (fst (new_node ps a2)).
+Proof.
+  intros (H1 & H2 & H3 & H4). unfold new_node. rewrite H2. destruct (freeList a2) as [|p r].
+  - cbn [fst snd]. split; [exact H1|].
+    destruct (data_len a1 <? (nextPage a1 + 1) * ps); destruct (data_len a2 <? (nextPage a2 + 1) * ps);
+      unfold alloc_offset, aeq; cbn [nextPage freeList leafKeys pagesFree]; repeat split; congruence.
+  - cbn [fst snd]. split; [reflexivity|]. unfold aeq. cbn [nextPage freeList leafKeys pagesFree]. repeat split; congruence.
+Qed.
+
+Lemma add_leaf_keys_aeq a1 a2 d : aeq a1 a2 -> aeq (add_leaf_keys a1 d) (add_leaf_keys a2 d).
+Proof. intros (H1 & H2 & H3 & H4). unfold add_leaf_keys, aeq. cbn. repeat split; congruence. Qed.
+Lemma free_child_aeq a1 a2 c : aeq a1 a2 -> aeq (free_child a1 c) (free_child a2 c).
+Proof. intros (H1 & H2 & H3 & H4). unfold free_child, aeq. cbn. repeat split; congruence. Qed.
+
+Section Sim.
+  Variable M : nat.
+  Hypothesis HM : (4 <= M)%nat.
+  Variable ps : N.
+
+  Lemma tset_sim f1 : forall f2 a1 a2 t k v lo hi a1' t', aeq a1 a2 -> (height t < f1)%nat -> (height t < f2)%nat ->
+    wf M (M - 1) lo hi t -> lo < k <= hi -> tset M ps f1 a1 t k v = Some (a1', t') ->
+    exists a2', tset M ps f2 a2 t k v = Some (a2', t') /\ aeq a1' a2'.
+  Proof.
+    induction f1 as [|f1 IH]; intros f2 a1 a2 t k v lo hi a1' t' Ha Hh1 Hh2 Hwf Hk Hts; [lia|].
+    destruct f2 as [|f2]; [lia|].
+    inversion Hwf as [cap0 lo0 hi0 pid es Hs Hne Hmk Hlen|cap0 lo0 hi0 pid cs Hkids Hne Hlen]; subst.
+    - cbn [tset] in *. destruct (node_set wid es k v) as [es' added]. injection Hts as <- <-.
+      eexists. split; [reflexivity|apply add_leaf_keys_aeq; exact Ha].
+    - destruct (wfk_route M HM _ _ _ k Hkids Hk) as (pre & ck & c & post & lo' & -> & Hlt & Hpre & Hc & Hkc & Hpost).
+      rewrite height_node, hmax_app, hmax_cons in Hh1, Hh2.
+      rewrite (tset_node_step M HM) in Hts by (auto; lia). rewrite (tset_node_step M HM) by (auto; lia).
+      destruct (tset M ps f1 a1 c k v) as [[b1 c']|] eqn:E1; [|discriminate].
+      destruct (IH f2 a1 a2 c k v lo' ck b1 c' Ha ltac:(lia) ltac:(lia) Hc Hkc E1) as (b2 & E2 & Hb).
+      rewrite E2. destruct (is_full M c').
+      + destruct (new_node_aeq ps b1 b2 Hb) as [Hp Hn].
+        destruct (new_node ps b1) as [d1 p1]. destruct (new_node ps b2) as [d2 p2]. cbn [fst snd] in *. subst p2.
+        destruct (split_tree M c' p1) as [l r]. cbv zeta in *. injection Hts as <- <-.
+        eexists. split; [reflexivity|exact Hn].
+      + injection Hts as <- <-. eexists. split; [reflexivity|exact Hb].
+  Qed.
+
+  Lemma tree_set_sim x y k v x' : sim x y -> WFt M x -> WFt M y -> valid_key k ->
+    tree_set M ps x k v = Some x' -> exists y', tree_set M ps y k v = Some y' /\ sim x' y'.
+  Proof.
+    intros [Hr Ha] [Hwx Hdx] [Hwy Hdy] Hk. unfold valid_key in Hk. unfold tree_set.
+    destruct ((k =? 0) || (k =? absolute_max + 1)); [discriminate|].
+    destruct (tset M ps (S (depth x)) (al x) (root x) k v) as [[a1 r1]|] eqn:E1; [|discriminate].
+    destruct (tset_sim (S (depth x)) (S (depth y)) (al x) (al y) (root x) k v 0 absolute_max a1 r1 Ha
+                ltac:(lia) ltac:(rewrite Hr; lia) Hwx ltac:(lia) E1) as (a2 & E2 & Ha2).
+    rewrite <- Hr, E2. destruct (is_full M r1).
+    - destruct (new_node_aeq ps a1 a2 Ha2) as [Hp Hn].
+      destruct (new_node ps a1) as [d1 p1]. destruct (new_node ps a2) as [d2 p2]. cbn [fst snd] in *. subst p2.
+      destruct (split_tree M r1 p1) as [l0 r].
+      destruct (new_node_aeq ps d1 d2 Hn) as [Hp' Hn'].
+      destruct (new_node ps d1) as [e1 q1]. destruct (new_node ps d2) as [e2 q2]. cbn [fst snd] in *. subst q2.
+      intros E. injection E as <-. eexists. split; [reflexivity|]. split; [reflexivity|exact Hn'].
+    - intros E. injection E as <-. eexists. split; [reflexivity|]. split; [reflexivity|exact Ha2].
+  Qed.
+
+  (* DeleteBelow *)
+  Lemma compact_children_sim (rec1 rec2 : alloc -> tree -> option (alloc * tree * nat)) cs :
+    Forall (fun e => forall a1 a2 a1' c' rem, aeq a1 a2 -> rec1 a1 (snd e) = Some (a1', c', rem) ->
+                     exists a2', rec2 a2 (snd e) = Some (a2', c', rem) /\ aeq a1' a2') cs ->
+    forall a1 a2 a1' cs', aeq a1 a2 -> compact_children rec1 a1 cs = Some (a1', cs') ->
+    exists a2', compact_children rec2 a2 cs = Some (a2', cs') /\ aeq a1' a2'.
+  Proof.
+    induction 1 as [|[ck c] rest Hc Hrest IH]; intros a1 a2 a1' cs' Ha Hcc.
+    - cbn in *. injection Hcc as <- <-. eexists. split; [reflexivity|exact Ha].
+    - cbn [compact_children snd] in *.
+      destruct (rec1 a1 c) as [[[b1 c1] rem]|] eqn:E1; [|discriminate].
+      destruct (Hc a1 a2 b1 c1 rem Ha E1) as (b2 & E2 & Hb). rewrite E2.
+      destruct (Nat.eqb rem 0 && negb match rest with [] => true | _ :: _ => false end).
+      + apply (IH _ _ _ _ (free_child_aeq b1 b2 c1 Hb) Hcc).
+      + destruct (compact_children rec1 b1 rest) as [[d1 rest']|] eqn:E3; [|discriminate].
+        destruct (IH _ _ _ _ Hb E3) as (d2 & E4 & Hd). rewrite E4. injection Hcc as <- <-.
+        eexists. split; [reflexivity|exact Hd].
+  Qed.
+
+  Lemma hmax_in k c cs : In (k, c) cs -> (height c <= hmax cs)%nat.
+  Proof.
+    induction cs as [|[k' c'] r IH]; intros H; [destruct H|]. rewrite hmax_cons.
+    destruct H as [E|H]; [injection E as -> ->; lia|apply IH in H; lia].
+  Qed.
+
+  Lemma tcompact_sim ts f1 : forall f2 a1 a2 t a1' t' rem, aeq a1 a2 -> (height t < f1)%nat -> (height t < f2)%nat ->
+    tcompact f1 ts a1 t = Some (a1', t', rem) ->
+    exists a2', tcompact f2 ts a2 t = Some (a2', t', rem) /\ aeq a1' a2'.
+  Proof.
+    induction f1 as [|f1 IH]; intros f2 a1 a2 t a1' t' rem Ha Hh1 Hh2 Htc; [lia|].
+    destruct f2 as [|f2]; [lia|]. destruct t as [pid es|pid cs]; cbn [tcompact] in *.
+    - destruct (node_compact es ts) as [es' rem']. injection Htc as <- <- <-.
+      eexists. split; [reflexivity|apply add_leaf_keys_aeq; exact Ha].
+    - rewrite height_node in Hh1, Hh2.
+      destruct (compact_children (tcompact f1 ts) a1 cs) as [[b1 cs']|] eqn:E1; [|discriminate].
+      destruct (compact_children_sim (tcompact f1 ts) (tcompact f2 ts) cs) with (a1 := a1) (a2 := a2) (a1' := b1) (cs' := cs')
+        as (b2 & E2 & Hb); auto.
+      + apply Forall_forall. intros [k c] Hin x1 x2 x1' c' r Hx Hr. cbn [snd] in *.
+        pose proof (hmax_in k c cs Hin). eapply IH; eauto; lia.
+      + rewrite E2. injection Htc as <- <- <-. eexists. split; [reflexivity|exact Hb].
+  Qed.
+
+  Lemma tree_delete_below_sim x y ts x' : sim x y -> WFt M x -> WFt M y ->
+    tree_delete_below x ts = Some x' -> exists y', tree_delete_below y ts = Some y' /\ sim x' y'.
+  Proof.
+    intros [Hr (H1 & H2 & H3 & H4)] [_ Hdx] [_ Hdy]. unfold tree_delete_below.
+    set (ax := mkAlloc (nextPage (al x)) (freeList (al x)) 0 (pagesFree (al x)) (curSz (al x)) (offset (al x))).
+    set (ay := mkAlloc (nextPage (al y)) (freeList (al y)) 0 (pagesFree (al y)) (curSz (al y)) (offset (al y))).
+    assert (Ha0 : aeq ax ay) by (unfold aeq, ax, ay; cbn; repeat split; congruence).
+    destruct (tcompact (S (depth x)) ts ax (root x)) as [[[a1 r1] rem]|] eqn:E1; [|discriminate].
+    destruct (tcompact_sim ts (S (depth x)) (S (depth y)) ax ay (root x) a1 r1 rem Ha0 ltac:(lia) ltac:(rewrite Hr; lia) E1)
+      as (a2 & E2 & Ha2).
+    rewrite <- Hr, E2. intros E. injection E as <-. eexists. split; [reflexivity|]. split; [reflexivity|exact Ha2].
+  Qed.
+
+  (* IterateKV *)
+  Lemma titer_fuel fn f1 : forall f2 t, (height t < f1)%nat -> (height t < f2)%nat -> titer f1 fn t = titer f2 fn t.
+  Proof.
+    induction f1 as [|f1 IH]; intros f2 t H1 H2; [lia|]. destruct f2 as [|f2]; [lia|].
+    destruct t as [pid es|pid cs]; cbn [titer]; [reflexivity|].
+    rewrite height_node in H1, H2.
+    assert (E : map (fun e => (fst e, titer f1 fn (snd e))) cs = map (fun e => (fst e, titer f2 fn (snd e))) cs).
+    { apply map_ext_in. intros [k c] Hin. cbn [fst snd]. pose proof (hmax_in k c cs Hin). rewrite (IH f2 c); [reflexivity|lia|lia]. }
+    rewrite E. reflexivity.
+  Qed.
+
+  Lemma tree_iterate_sim x y fn : sim x y -> WFt M x -> WFt M y ->
+    fst (tree_iterate x fn) = fst (tree_iterate y fn) /\ sim (snd (tree_iterate x fn)) (snd (tree_iterate y fn)).
+  Proof.
+    intros [Hr Ha] [_ Hdx] [_ Hdy]. unfold tree_iterate.
+    rewrite (titer_fuel fn (S (depth x)) (S (depth y)) (root x)) by (first [lia | rewrite Hr; lia]). rewrite Hr.
+    destruct (titer (S (depth y)) fn (root y)) as [vis r1]. cbn [fst snd]. split; [reflexivity|]. split; [reflexivity|exact Ha].
+  Qed.
+
+  (* Reset *)
+  Lemma init_root_sim a1 a2 x : aeq a1 a2 -> init_root M ps a1 = Some x ->
+    exists y, init_root M ps a2 = Some y /\ sim x y.
+  Proof.
+    intros Ha Hx.
+    destruct (init_root_spec M HM ps a1) as (x0 & p1 & p2 & Hi1 & Hr1 & _ & Hn1 & Hn1' & Hal1).
+    destruct (init_root_spec M HM ps a2) as (y0 & q1 & q2 & Hi2 & Hr2 & _ & Hn2 & Hn2' & Hal2).
+    rewrite Hx in Hi1. injection Hi1 as <-. exists y0. split; [exact Hi2|].
+    destruct (new_node_aeq ps a1 a2 Ha) as [Hp Hn].
+    destruct (new_node_aeq ps _ _ Hn) as [Hp' Hn'].
+    rewrite Hn1 in Hp. rewrite Hn2 in Hp. cbn [snd] in Hp.
+    rewrite Hn1' in Hp'. rewrite Hn2' in Hp'. cbn [snd] in Hp'.
+    split; [rewrite Hr1, Hr2, Hp, Hp'; reflexivity|]. rewrite Hal1, Hal2. apply add_leaf_keys_aeq. exact Hn'.
+  Qed.
+
+  Lemma tree_reset_sim x y x' : tree_reset M ps x = Some x' -> exists y', tree_reset M ps y = Some y' /\ sim x' y'.
+  Proof.
+    unfold tree_reset, tree_reset_buf. apply init_root_sim.
+    unfold alloc_offset, aeq. cbn. repeat split.
+  Qed.
+
+  Lemma step_sim x y o x' : sim x y -> WFt M x -> WFt M y -> op_ok o ->
+    step M ps x o = Some x' -> exists y', step M ps y o = Some y' /\ sim x' y'.
+  Proof.
+    intros Hs Hx Hy Ho. destruct o as [k v|ts|fn|]; cbn [step op_ok] in *.
+    - apply tree_set_sim; assumption.
+    - apply tree_delete_below_sim; assumption.
+    - intros E. injection E as <-. eexists. split; [reflexivity|]. apply tree_iterate_sim; assumption.
+    - apply tree_reset_sim.
+  Qed.
+
+  Lemma step_wft x o x' : WFt M x -> op_ok o -> step M ps x o = Some x' -> WFt M x'.
+  Proof.
+    intros Hx Ho. destruct o as [k v|ts|fn|]; cbn [step op_ok] in *.
+    - destruct (tree_set_spec M HM ps x k v Hx Ho) as (st1 & H1 & H2 & _). rewrite H1. intros E. injection E as <-. exact H2.
+    - destruct (tree_delete_below_spec M HM x ts Hx) as (st1 & H1 & H2 & _). rewrite H1. intros E. injection E as <-. exact H2.
+    - intros E. injection E as <-. apply (tree_iterate_spec M HM x fn Hx).
+    - destruct (tree_reset_spec M HM ps x) as (st1 & H1 & H2 & _). rewrite H1. intros E. injection E as <-. exact H2.
+  Qed.
+
+  Lemma run_sim ops : forall x y x', sim x y -> WFt M x -> WFt M y -> Forall op_ok ops ->
+    run M ps ops x = Some x' -> exists y', run M ps ops y = Some y' /\ sim x' y'.
+  Proof.
+    induction ops as [|o ops IH]; intros x y x' Hs Hx Hy Hok Hr.
+    - cbn in Hr. injection Hr as <-. exists y. split; [reflexivity|exact Hs].
+    - inversion Hok as [|o' ops' Ho Hops]; subst. unfold run in *. cbn [fold_left] in *.
+      destruct (step M ps x o) as [x1|] eqn:E1; [|rewrite run_none in Hr; discriminate].
+      destruct (step_sim x y o x1 Hs Hx Hy Ho E1) as (y1 & E2 & Hs1). rewrite E2.
+      apply (IH x1 y1 x' Hs1 (step_wft x o x1 Hx Ho E1) (step_wft y o y1 Hy Ho E2) Hops Hr).
+  Qed.
+
+  Lemma sim_same_obs x y : sim x y -> same_obs x y = true.
+  Proof.
+    intros [Hr (H1 & H2 & H3 & H4)]. unfold same_obs. rewrite Hr, H1, H2, H3, H4.
+    assert (HN : forall l, list_eqb N.eqb l l = true) by (induction l; cbn; [reflexivity|rewrite N.eqb_refl; assumption]).
+    assert (HP : forall l, list_eqb pair_eqb l l = true).
+    { induction l as [|e l IH]; cbn; [reflexivity|]. unfold pair_eqb at 1. rewrite !N.eqb_refl. exact IH. }
+    rewrite !HN, HP, N.eqb_refl, !Z.eqb_refl. reflexivity.
+  Qed.
+
+  (* the full statement *)
+  Theorem reopen_agrees_true a b : 0 < ps <= 1048568 -> Forall op_ok a -> Forall op_ok b ->
+    reopen_agrees M ps a b = true.
+  Proof.
+    intros [Hps0 Hps] Ha Hb. unfold reopen_agrees.
+    destruct (new_file_wf M HM ps Hps) as (st0 & H0 & Hwf0). rewrite H0.
+    destruct (history_wf M HM ps a Hps st0 Hwf0 Ha) as (s & Hra & Hwf_s). rewrite Hra.
+    rewrite (tree_reopen_spec M HM ps s Hps0 (proj2 Hwf_s)).
+    pose proof (reopened_wf M ps s Hwf_s) as Hwf_s'.
+    destruct (history_wf M HM ps b Hps s Hwf_s Hb) as (x & Hrx & Hwf_x). rewrite Hrx.
+    assert (Hsim : sim s (reopened s)) by (split; [reflexivity|unfold reopened, aeq; cbn; repeat split]).
+    destruct (run_sim b s (reopened s) x Hsim (proj1 Hwf_s) (proj1 Hwf_s') Hb Hrx) as (y & Hry & Hxy).
+    rewrite Hry. rewrite reopened_same, (sim_same_obs x y Hxy). reflexivity.
+  Qed.
+End Sim.
